@@ -4,6 +4,7 @@
 Require Import Zrs.lib.RsPrelude Zrs.gen.Generated Zrs.model.Headers Zrs.model.BlockDec Zrs.model.FrameDec Zrs.model.FrameEnc.
 Require Import Zrs.proofs.C15_Frame Zrs.proofs.C02_Roundtrip Zrs.proofs.C02_Fastest.
 Require Import Zrs.model.FseDec Zrs.model.SeqSection Zrs.model.BlockEnc Zrs.proofs.C12_SeqStream Zrs.proofs.C02_Block.
+Require Import Zrs.model.Matcher Zrs.proofs.C06_Drain Zrs.proofs.C17_Matcher Zrs.proofs.C17_Shape Zrs.proofs.C02_Glue Zrs.proofs.C02_FastBlock.
 Open Scope Z_scope.
 
 (** level Uncompressed: every input, every fragmentation of the source reads, every block size up to 128 KiB, every
@@ -106,6 +107,28 @@ Theorem C02_raw_literal_block_decodes : forall lits dl do dm seqs body sc,
     end.
 Proof. exact raw_literal_block_decodes. Qed.
 
+(** one block of level Fastest, end to end, when the literals go out raw: the built-in match finder's step on [data]
+    (any reachable match finder state, any block that fits its window), what the block encoder makes of its report,
+    the block body, the decoder: the decoder's buffer grows by exactly [data], and it again ends with the bytes the
+    match finder retains, so the statement applies to the next block as well *)
+Theorem C02_fastest_block_step_with_raw_literals : forall d data d' seqs dl do dm body sc pre,
+  DInv d -> (length data <= max_window d)%nat -> Z.of_nat (length data) <= MAX_BLOCK_SIZE ->
+  mstep d (OpBlock data false) = ROk (d', Some seqs) ->
+  block_raw_lits (mseqs_lits seqs) dl do dm (mseqs_seqs seqs) = ROk body ->
+  (mseqs_seqs seqs <> [] -> section_hyps_b dl do dm (mseqs_seqs seqs) = true) ->
+  t_max_symbol (fs_ll (sc_fse sc)) = MAX_LITERAL_LENGTH_CODE -> t_max_symbol (fs_of (sc_fse sc)) = MAX_OFFSET_CODE ->
+  t_max_symbol (fs_ml (sc_fse sc)) = MAX_MATCH_LENGTH_CODE ->
+  db_wf (sc_buf sc) -> db_rev (sc_buf sc) = rev (retained d) ++ pre -> hist3 (sc_hist sc) ->
+  exists sc' pre',
+    decompress_block (zlen body) sc body = ROk sc' /\
+    db_rev (sc_buf sc') = rev data ++ db_rev (sc_buf sc) /\
+    db_wf (sc_buf sc') /\ db_rev (sc_buf sc') = rev (retained d') ++ pre' /\ hist3 (sc_hist sc') /\
+    sc_huf sc' = sc_huf sc /\ db_dict (sc_buf sc') = db_dict (sc_buf sc) /\ db_window (sc_buf sc') = db_window (sc_buf sc) /\
+    t_max_symbol (fs_ll (sc_fse sc')) = MAX_LITERAL_LENGTH_CODE /\ t_max_symbol (fs_of (sc_fse sc')) = MAX_OFFSET_CODE /\
+    t_max_symbol (fs_ml (sc_fse sc')) = MAX_MATCH_LENGTH_CODE.
+Proof. exact fastest_step_raw_literals. Qed.
+
+Print Assumptions C02_fastest_block_step_with_raw_literals.
 Print Assumptions C02_raw_literal_block_decodes.
 Print Assumptions C02_fastest_roundtrip_given_block_encoder.
 Print Assumptions C02_uncompressed_roundtrip.
